@@ -408,6 +408,10 @@ theorem resolveIdentities_graph (o : Oracle) (ho : o.Valid) (r : Registry) (lk :
       · intro e he hb
         exact h3 e.vtx ((hverts _).mp ⟨e, he, rfl⟩) ((below_iff_derives hE _ _).mp hb)
 
+theorem pairwise_before {l : List Vtx} (h : l.Pairwise (fun a b => vtxLt a b = true)) :
+    l.Pairwise Spec.Identity.Before :=
+  h.imp (fun hab => (vtxLt_iff _ _).mp hab)
+
 /-! ### finite checks that establish the hypotheses for a concrete loaded set -/
 
 theorem regOK_of_entries {r : Registry}
